@@ -192,8 +192,36 @@ def replay_merge(case) -> List[Tuple[str, str]]:
     D = lambda x: x if isinstance(x, dict) else {}      # ToJson renders an empty function as []
     case = dict(case, target=D(case["target"]), expect=D(case["expect"]),
                 workers={w: D(c) for w, c in D(case["workers"]).items()})
+    # value 0 of the model stands for a cached None (a legal cached value: "present" is decided by membership)
+    NV = lambda v: None if v == 0 else v
+    case = dict(case, target={k: NV(v) for k, v in case["target"].items()}, expect={k: NV(v) for k, v in case["expect"].items()},
+                workers={w: {k: NV(v) for k, v in c.items()} for w, c in case["workers"].items()},
+                puts=[[p[0], NV(p[1])] for p in case["puts"]])
     ws = sorted(case["workers"])
     results = set()
+    # a skipped key is left untouched in a real recency-ordered target as well: after a first_wins merge into a
+    # DeterministicLRU the old entries keep their order and the new ones follow in put order
+    if case["policy"] == "first_wins":
+        from clematis.engine.util.lru_det import DeterministicLRU
+        real = DeterministicLRU(64)
+        for k, v in sorted(case["target"].items(), reverse=True):       # any fixed order: here descending keys
+            real.put(k, v)
+        before = [k for k, _ in real.items()]
+        wl0 = []
+        for w in ws:
+            c0 = DictCache()
+            for k in sorted(case["workers"][w]):
+                c0.d[k] = case["workers"][w][k]
+            wl0.append((w, c0))
+        try:
+            merge_caches_deterministic(real, wl0, worker_order_key=lambda x: x, key_order_key=lambda x: x, on_conflict="first_wins")
+            after = [k for k, _ in real.items()]
+            want_order = before + [str(p[0]) for p in case["puts"]]
+            if after != want_order or dict(real.items()) != case["expect"]:
+                fails.append(("MergeDeterministic", f"merge into a DeterministicLRU: entries (LRU first) {list(real.items())}, spec: old entries in place "
+                                                    f"then the new ones in put order {want_order} with values {case['expect']} for {case}"))
+        except Exception as e:      # noqa: BLE001
+            fails.append(("MergeDeterministic", f"merge into a DeterministicLRU raised {type(e).__name__}: {e} for {case}"))
     for perm in itertools.permutations(ws):
         for rev in (False, True):
             tgt = DictCache()
@@ -259,7 +287,7 @@ def check(run) -> None:
                        ["MutualExclusion", "TypeOK"], ["SerialEquivalent"], emit=False, view=None)
         res = run.tlc("LockWrapper", cfg, name=f"LockWrapper_{nt}x{no}", workers=4, timeout_s=600)
         run.model_must_hold(res)
-    cfg = make_cfg({"Workers": [1, 2, 3] if not q else [1, 2], "Keys": [1, 2], "Vals": [1, 2]},
+    cfg = make_cfg({"Workers": [1, 2, 3] if not q else [1, 2], "Keys": [1, 2], "Vals": [0, 1, 2] if q else [0, 1]},
                    ["OrderIndependent"], [], emit=False, view=None, constraint="EmitCase")
     res = run.tlc("MergeCaches", cfg, name="MergeCaches", workers=4, timeout_s=600)
     run.model_must_hold(res)
